@@ -64,6 +64,7 @@ class LeanState:
         self.discharged = []     # theorems built + axiom audit passed
         self.broken = []         # human-readable reasons (theorem / file that no longer checks)
         self.forbidden_hits = []
+        self.other_notes = []
         self.leanchecker = None
 
 
@@ -78,11 +79,17 @@ def lean_prepare(prop, tier):
             st.gen_report = json.loads(out.strip().splitlines()[-1])
         except Exception:
             st.gen_report = {"error": out[-2000:]}
+        needed = generated_deps(prop)
         for mod, r in (st.gen_report.get("kernels") or {}).items():
             if not r.get("ok"):
-                st.broken.append("translator: Generated/%s.lean not regenerated (%s)" % (mod, r.get("error")))
+                msg = "translator: Generated/%s.lean not regenerated (%s)" % (mod, r.get("error"))
+                if mod in needed:
+                    st.broken.append(msg)       # a broken tie for THIS property (its theorems import the file)
+                else:
+                    st.other_notes.append(msg + " — not imported by this property")
         if not (st.gen_report.get("tables") or {}).get("ok", False):
-            st.broken.append("table dump failed: %s" % (st.gen_report.get("tables") or st.gen_report))
+            msg = "table dump failed: %s" % (st.gen_report.get("tables") or st.gen_report)
+            (st.broken if "Tables" in needed else st.other_notes).append(msg)
         # driver first (Model/Spec/Generated only), then the property's theorems
         rc, out = sh(["lake", "build", "driver"], cwd=LEAN)
         st.driver_ok = rc == 0 and os.path.exists(DRIVER)
@@ -137,6 +144,25 @@ def lean_prepare(prop, tier):
             except subprocess.TimeoutExpired:
                 st.leanchecker = {"rc": None, "modules": mods, "note": "timeout"}
     return st
+
+
+def generated_deps(prop):
+    """names of the Generated/*.lean modules in the transitive imports of Properties/<prop>.lean and of the driver's
+    Ops files (the correspondence runs the driver): a translator failure matters to a property only through these"""
+    seen, out = set(), set()
+    def walk(mod):
+        if mod in seen:
+            return
+        seen.add(mod)
+        f = os.path.join(LEAN, *mod.split(".")) + ".lean"
+        if not os.path.exists(f):
+            return
+        for imp in re.findall(r"^import (DateutilVerif\.\S+)", open(f).read(), re.M):
+            if imp.startswith("DateutilVerif.Generated."):
+                out.add(imp.split(".")[-1])
+            walk(imp)
+    walk("DateutilVerif.Properties.%s" % prop)
+    return out
 
 
 def prop_modules(prop):
@@ -435,7 +461,7 @@ def write_evidence(mod, ctx, nviol, known_hit, infra_error):
         "known_findings_hit": sorted(known_hit.keys()),
         "escalated_to_thorough_budget": ctx.escalated,
         "anchored_source_changed": ctx.source_changed,
-        "notes": ctx.notes,
+        "notes": ctx.notes + st.other_notes,
     }
     if infra_error:
         cov["infrastructure_error"] = infra_error
